@@ -7,6 +7,7 @@ Monitors: (M1) deep type-qualified signature of the run-time value vs CPython ex
 nodes denote.  Discrepancies are classified by leaf difference, innermost container, and the ablation "translate the
 same function with constant pooling switched off"."""
 import ast
+import json
 import os
 import re
 from concurrent.futures import ThreadPoolExecutor
@@ -26,6 +27,9 @@ def make_function(rng, idx, expr):
     """source block for one expression; returns dict(name, shape, expr, src, cases)"""
     name = 'fz%dz' % idx
     r = rng.random()
+    if isinstance(expr, tuple):         # directed: (shape, expression)
+        r = {'ret': 0.0, 'default': 0.85, 'class': 0.9, 'global': 0.99}[expr[0]]
+        expr = expr[1]
     m = re.match(r'^(\S+) (in|not in) (.+)$', expr)
     if m and m.group(1) in constexpr.MIX and rng.random() < 0.7:
         src = 'def %s(x):\n    return x %s %s\n' % (name, m.group(2), m.group(3))
@@ -39,7 +43,10 @@ def make_function(rng, idx, expr):
         shape, src = 'class', 'class K%d:\n    A = %s\ndef %s():\n    return K%d.A\n' % (idx, expr, name, idx)
     else:
         shape, src = 'global', 'G%d = %s\ndef %s():\n    return G%d\n' % (idx, expr, name, idx)
-    return {'name': name, 'shape': shape, 'expr': expr, 'src': src, 'cases': [{'f': name, 'a': '()', 't': shape}]}
+    cases = [{'f': name, 'a': '()', 't': shape}]
+    if shape == 'default':
+        cases.append({'x': '(M.%s.__defaults__, M.%s.__kwdefaults__)' % (name, name), 'f': name, 't': 'default-attr'})
+    return {'name': name, 'shape': shape, 'expr': expr, 'src': src, 'cases': cases}
 
 
 def directed():
@@ -68,6 +75,13 @@ def directed():
         '((0.0, -0.0) * 2, (-0.0, 0.0) * 2)', '1_000_000', '0x_ff', '0b_1', '0o_7', '1_0.0_1', '1e1_0',
         '-0x80000000', '-0X8000_0000', '-0o20000000000', '-0b1' + '0' * 31, '-0x7fffffff', '-(0x80000000)', '-0x1', '-00',
         '-0xffffffff', '-0x80000001', '0x80000000', '0xffffffff', '0o17777777777', '-0o17777777777', '-2147483648',
+        '-~(2147483647)', '(~-0o17777777777) << 63', '~5', '~-5 << 62', '~0x7fffffff', '-~0x7fffffff', '~(2**63)',
+        '~-1', '~0 >> 1', '(~1, -~1, ~-1, ~~1)', '~0x7fffffff - 1', '~5 * 2**62', '~(-2**31) + 1',
+        ('default', '(0x0,) * 5'), ('default', '0 * (0.0j,)'), ('default', '(0,) * 2'), ('default', '(0.0,) * 3'),
+        ('default', '(False,) * 2'), ('default', '(0.0,) * 2'), ('default', '(-0.0,) * 2'), ('default', '(1,) * 2'),
+        ('default', '(1.0,) * 2'), ('default', '(0, 0.0)'), ('default', '(0.0, 0)'), ('default', '0.0'),
+        ('default', '-0.0'), ('default', '(0.0, -0.0)'), ('default', '(-0.0, 0.0)'), ('class', '(0.0, -0.0)'),
+        ('global', '(-0.0, 0.0)'), ('default', "('a',) * 2"), ('default', "(b'a',) * 2"),
         '(1, 2) * 2 * 3', '2 * (0.0,) * 3', '(1,) * 3 * 1', '3 * ((0,) * 2)', '[1, 2] * 2 * 2', '(0.0, -0.0) * 2 * 2',
         '(1e400, -1e400)', '(-1e400, 1e400)', '(1e400 - 1e400,)', '(0j, 0.0, 0)', '(0, 0.0, 0j)',
     ]
@@ -78,7 +92,7 @@ def workload(ck):
     n = ck.pick(2000, 60000)
     exprs = directed() + constexpr.generate(rng, n)
     # pooling pressure: a few hundred expressions are repeated verbatim elsewhere in the run
-    reps = [rng.choice(exprs) for _ in range(len(exprs) // 12)]
+    reps = [rng.choice(exprs[len(directed()):]) for _ in range(len(exprs) // 12)]
     exprs = exprs + reps
     head = exprs[:len(directed())]
     tail = exprs[len(directed()):]
@@ -377,7 +391,30 @@ def structural_class(f, exp, got):
             return base, 'c-arith:%s:%s:%s' % ('+'.join(culprits), kind, cont)
         if ops:
             return base, 'c-arith:unexplained(%s):%s:%s' % ('+'.join(sorted({o for o, c in ops})), kind, cont)
+    if leaf_types == ('int', 'int') and unfolded_int_arith(f['expr']):
+        return base, 'c-int-arith-on-unfolded-invert:%s:%s' % (kind, cont)
     return base, base
+
+
+def unfolded_int_arith(expr):
+    """`~<int literal>` is not replaced by a literal in ConstantFolding.visit_UnopNode; an operator applied to it is then
+    not folded either (operands must be literals) and is evaluated in C integer arithmetic at run time"""
+    try:
+        tree = ast.parse(expr, mode='eval')
+    except SyntaxError:
+        return False
+    for node in ast.walk(tree):
+        kids = []
+        if isinstance(node, ast.BinOp):
+            kids = [node.left, node.right]
+        elif isinstance(node, ast.UnaryOp) and isinstance(node.op, (ast.USub, ast.UAdd, ast.Invert)):
+            kids = [node.operand]
+        for k in kids:
+            while isinstance(k, ast.UnaryOp) and isinstance(k.op, (ast.USub, ast.UAdd)):
+                k = k.operand
+            if isinstance(k, ast.UnaryOp) and isinstance(k.op, ast.Invert):
+                return True
+    return False
 
 
 def monitor_class(coll):
@@ -396,6 +433,9 @@ def monitor_class(coll):
         ob = [sorted(eval(o), key=repr) for o in b.get('orders', [])]
         if any(x in ob for x in oa):
             kind = 'equal-elements-order'
+    if all(v.get('via_default') for v in vals[:2]):
+        # both constants are literal argument defaults wrapped in DefaultLiteralArgNode (keyed by constant_result)
+        return 'default-literal-arg:%s:%s' % (kind, cont)
     return '%s:%s' % (kind, cont)
 
 
@@ -506,43 +546,53 @@ def main(ck):
     for base, refined, f, m in mism:
         by_class.setdefault(refined, []).append((base, f, m))
     ablation = {}
+    # the pooling ablation is run for every function with a discrepancy (capped; beyond the cap the class verdict is used)
     reps = []
+    seen = set()
     for cls, items in sorted(by_class.items()):
-        seen = set()
         for base, f, m in items:
-            if f['name'] not in seen and len(seen) < 6:
+            if len(seen) < 6000 or f['name'] in seen:
                 seen.add(f['name'])
                 reps.append((cls, f, m))
+    fixed_case = {}
     if reps:
-        afuncs = []
-        seen = set()
+        afuncs, names = [], set()
         for cls, f, m in reps:
-            if f['name'] not in seen:
-                seen.add(f['name'])
+            if f['name'] not in names:
+                names.add(f['name'])
                 afuncs.append(f)
-        da, astate = build_modules(tree, 'abl', {'c09abl': afuncs}, plugin_args={'ablate': True})
-        ast_ = astate['c09abl']
-        if ast_['ok']:
-            cases = [m['case'] for cls, f, m in reps]
-            ares = diff.run_cases(tree, da, 'c09abl', cases, ref=ast_['src'], compare=compare, nproc=1)
-            still = {(mm['case']['f'], mm['case'].get('a')) for mm in ares.mismatches} | \
-                    {(c['case']['f'], c['case'].get('a')) for c in ares.crashes}
+        amods = {'c09abl%d' % (i // 500): afuncs[i:i + 500] for i in range(0, len(afuncs), 500)}
+        da, astate = build_modules(tree, 'abl', amods, plugin_args={'ablate': True})
+        for an, ast_ in astate.items():
+            if not ast_['ok']:
+                ck.note('ablation module %s failed to build: %s' % (an, ast_['errors'][-300:]))
+                continue
+            have = {f['name'] for f in ast_['funcs']}
+            cases = [m['case'] for cls, f, m in reps if f['name'] in have]
+            ares = diff.run_cases(tree, da, an, cases, ref=ast_['src'], compare=compare, nproc=2, tagdir='run_' + an)
+            still = {json.dumps(mm['case'], sort_keys=True) for mm in ares.mismatches} | \
+                    {json.dumps(c['case'], sort_keys=True) for c in ares.crashes}
+            if ares.fatal:
+                continue
             for cls, f, m in reps:
-                fixed = (m['case']['f'], m['case'].get('a')) not in still
-                a = ablation.setdefault(cls, {'fixed': 0, 'not_fixed': 0})
-                a['fixed' if fixed else 'not_fixed'] += 1
-        else:
-            ck.note('ablation module failed to build: ' + ast_['errors'][-300:])
+                if f['name'] in have:
+                    fx = json.dumps(m['case'], sort_keys=True) not in still
+                    fixed_case[json.dumps(m['case'], sort_keys=True)] = fx
+                    a = ablation.setdefault(cls, {'fixed': 0, 'not_fixed': 0})
+                    a['fixed' if fx else 'not_fixed'] += 1
     keyed = {}
     for cls, items in sorted(by_class.items()):
         a = ablation.get(cls)
         for base, f, m in items:
-            if a and a['fixed'] and not a['not_fixed']:
+            fx = fixed_case.get(json.dumps(m['case'], sort_keys=True))
+            if fx is None and a and bool(a['fixed']) != bool(a['not_fixed']):
+                fx = bool(a['fixed'])              # not ablated itself (cap): its class was unanimous
+            if fx is True and m['case'].get('t') == 'default-attr':
+                key = 'pool-merge:default-literal-arg:' + base    # only __defaults__/__kwdefaults__ differ
+            elif fx is True:
                 key = 'pool-merge:' + base          # disappears when pooling is switched off
-            elif a and a['not_fixed'] and not a['fixed']:
+            elif fx is False:
                 key = 'const-value:' + cls         # independent of pooling
-            elif a:
-                key = 'mixed-cause:' + cls
             else:
                 key = 'unclassified:' + cls
             keyed[key] = keyed.get(key, 0) + 1
